@@ -408,7 +408,7 @@ type obj struct {
 
 func (o *obj) want(k *kind, from, n int) []byte {
 	if len(o.stream) < from+n {
-		o.stream = k.stream(o.msg, max(from+n, 2*k.rate+1100))
+		o.stream = k.stream(o.msg, from+n+k.rate) // a little ahead; grows on demand
 	}
 	return o.stream[from : from+n]
 }
